@@ -110,8 +110,9 @@ var props = map[string]propSpec{
 		{Pkg: "types", Fn: "VerifC12NodeCreds", Validate: 8, MustReach: []string{"loaded", "load-refused"}, ShardBits: 2},
 		{Pkg: "types", Fn: "VerifC12Roots", Validate: 8, MustReach: []string{"loaded", "load-refused"}},
 		{Pkg: "types", Fn: "VerifC12Token", Validate: 8, MustReach: []string{"loaded", "load-refused"}},
+		{Pkg: "protocol", Fn: "VerifC12Flows", Validate: 4, MustReach: []string{"end"}},
 	}, Assumptions: with("secrecy is a derivability check on provenance terms (a secret may reach storage only below an AEAD seal or a one-way function); natively replayed as bytes.Contains on the marshalled message", "the storage wrapper is a real go-kms-wrapping aead wrapper executed from SSA"),
-		Explanation: "Store/Load of all four record types with a storage wrapper over a recording storage: secrecy of every private key / nonce / creation time, round trip (also of a value stored twice or loaded and stored again), refusal without or with another wrapper, transplanted sealed fields"},
+		Explanation: "Store/Load of all four record types with a storage wrapper over a recording storage: secrecy of every private key / nonce / creation time, round trip (also of a value stored twice or loaded and stored again), refusal without or with another wrapper, transplanted sealed fields; and every record written by the library's own flows (root creation, operator and token enrollment, spare token, node rotation) under a server-side and a node-side wrapper opens with its side's wrapper only"},
 	"C13": {Harnesses: []harnessSpec{
 		{Pkg: "rotation", Fn: "VerifC13RotateFaults", Validate: 16, MustReach: []string{"fault-hit", "success", "error"}, CrossSolver: "z3"},
 		{Pkg: "rotation", Fn: "VerifC13NodeRotationFaults", Loop: 16, Validate: 8, MustReach: []string{"fault-hit", "rotated", "failed"}},
